@@ -48,13 +48,16 @@ SplitRaises(S, o) ==
 (* ---- proposal sets: functions from task index k to machine id ---------- *)
 Merge(old, new) == [k \in DOMAIN old \cup DOMAIN new |->
                       IF k \in DOMAIN new THEN new[k] ELSE old[k]]
-(* greedy hand-out of free machines to ready tasks (batch: reserved idle   *)
-(* machines; queue: available machines).  Which ready tasks are served     *)
-(* first, and which free machine each gets, is not fixed by the policy.    *)
+(* hand-out of free machines to ready tasks (batch: reserved idle machines; *)
+(* queue: available machines).  Ready tasks are served in task-id order     *)
+(* (the pool is iterated sorted, so that the outcome does not depend on the *)
+(* interpreter's hash seed); which free machine each gets follows the       *)
+(* cluster's list order, which the specification does not fix.              *)
+LowestK(R, n) == {k \in R : Cardinality({j \in R : j < k}) < n}
 HandOut(R, temp, sched) ==
     LET R2 == R \ DOMAIN sched
         n == MaxI(0, MinI(Cardinality(R2), Cardinality(temp) - Cardinality(DOMAIN sched)))
-    IN {Merge(sched, f) : f \in UNION {Injection(Rs, temp) : Rs \in kSubset(n, R2)}}
+    IN {Merge(sched, f) : f \in Injection(LowestK(R2, n), temp)}
 PlannedM(S, o, k) == S.tasks[Task(o, k)].pm
 EstOf(o, k) == IF Task(o, k) \in DOMAIN cfg.plan THEN cfg.plan[Task(o, k)].est ELSE 0
 PlanProposals(S, o, R, sched) ==
@@ -63,7 +66,8 @@ PlanProposals(S, o, R, sched) ==
           D \in {D \in SUBSET R2 :
                    /\ \A a, b \in D : a # b => PlannedM(S, o, a) # PlannedM(S, o, b)
                    /\ \A k \in R2 \ D : \E w \in D : PlannedM(S, o, w) = PlannedM(S, o, k)
-                                                     /\ EstOf(o, w) <= EstOf(o, k)}}
+                                                     /\ (EstOf(o, w) < EstOf(o, k)
+                                                         \/ (EstOf(o, w) = EstOf(o, k) /\ w < k))}}
 (* greedy-from-plan: tasks in plan order; a ready task gets its planned     *)
 (* machine unless that machine is busy or already handed out in this round, *)
 (* then any machine that is still free (none left: the task waits)          *)
